@@ -39,6 +39,8 @@ func main() {
 		runQueue(*n, *out, raw)
 	case "parked":
 		runParked(*n, *out, raw)
+	case "fallback":
+		runFallback(*n, *out, raw)
 	default:
 		os.Exit(2)
 	}
